@@ -427,7 +427,7 @@ var Prop = &harness.Prop{
 				u = append(u, bigWriteUnit(k))
 			}
 		}
-		u = append(u, consumersUnit())
+		u = append(u, consumersUnit(), freshSM3Unit())
 		return u
 	},
 }
